@@ -28,6 +28,15 @@ void *memset(void *dst, int c, size_t n) {
 		((uint8_t *)dst)[i] = (uint8_t)c;
 	return (dst);
 }
+size_t strnlen(const char *s, size_t n) {
+	size_t i;
+	__CPROVER_precondition(n == 0 || __CPROVER_r_ok(s, n), "strnlen: span inside its object");
+	for (i = 0; i < n; i ++) {
+		if (s[i] == 0)
+			break;
+	}
+	return (i);
+}
 #endif
 #ifndef VF_REPLAY
 #ifdef VF_RAD_BUILD_STUBS
@@ -56,10 +65,12 @@ void *memset(void *dst, int c, size_t n) {
 #endif
 #include <string.h>
 
+#ifndef VF_RAD_LIBC_LOOP
 size_t strnlen(const char *s, size_t n)
 __CPROVER_requires(n == 0 || __CPROVER_r_ok(s, n))
 __CPROVER_assigns()
 __CPROVER_ensures(__CPROVER_return_value <= n)
 ;
+#endif
 #endif
 #endif
